@@ -112,6 +112,7 @@ type runState struct {
 	db      *chfake.DB
 	exp     map[string]*ExpRow  // tag -> row
 	expVal  map[float64]*ExpRow // metric value -> row
+	clientRetries int
 	hostile bool                // the run contains hostile requests (rows decoded from mutated bodies are not predictable)
 }
 
@@ -248,7 +249,9 @@ func (st *runState) body(ri *simcheck.RunInfo) *simrt.Sim {
 }
 
 func (st *runState) client(sim *simrt.Sim, sys *System, ci int, c Client) {
-	for _, op := range c.Ops {
+	ops := append([]Op(nil), c.Ops...)
+	for oi := 0; oi < len(ops); oi++ {
+		op := ops[oi]
 		if op.ThinkMs > 0 {
 			time.Sleep(time.Duration(op.ThinkMs)*time.Millisecond + simrt.Skew())
 			simrt.Yield("client:after-think")
@@ -311,6 +314,16 @@ func (st *runState) client(sim *simrt.Sim, sys *System, ci int, c Client) {
 		rec.EndEv = st.nextEv()
 		rec.EndT = time.Now()
 		rec.Returned = true
+		if op.Retry > 0 && rec.Status >= 500 && op.Hostile == "" {
+			// an honest client retries a push that was refused: same streams, same entries, a little later
+			again := op
+			again.Retry--
+			again.ThinkMs = int64(st.s.Cfg.DBTimerMs)
+			ops = append(ops[:oi+1], append([]Op{again}, ops[oi+1:]...)...)
+			st.mu.Lock()
+			st.clientRetries++
+			st.mu.Unlock()
+		}
 		simrt.Yield("client:after-request")
 	}
 }
@@ -816,6 +829,9 @@ func (st *runState) probes(ri *simcheck.RunInfo, blocks []*chfake.Block) {
 		}
 		if r.Status >= 500 {
 			p["request-answered-5xx"]++
+		}
+		if r.Op.Retry > 0 && r.Status >= 500 {
+			p["client-retried-after-5xx"]++
 		}
 		if r.Status >= 200 && r.Status < 300 {
 			p["request-answered-2xx"]++
